@@ -33,6 +33,7 @@ class Check:
         self.by_rule = {}
         self.samples = []
         self.violations = []
+        self.held = []
         self.inconclusives = []
         self.notes = []
         self.coverage_extra = {}
@@ -51,6 +52,7 @@ class Check:
         r[1] += 1
         if nontrivial:
             self.nontrivial.add((rule, instance))
+        self.held.append((rule, instance, why, loc))
         if len([s for s in self.samples if s['rule'] == rule]) < 3:
             self.samples.append({'rule': rule, 'instance': instance, 'at': loc, 'discharged_by': why})
 
